@@ -122,6 +122,16 @@ func runC10(r *fw.Runner) {
 		} {
 			c10Compare(c, composer, odd, l, "directed", fmt.Sprint("odd-uri-references-", i))
 		}
+		// ids are unique among the keys and among the services, not across the two lists: a service may be named like a key
+		sk1, kv1 := gen.RandService(rr, "key1"), gen.RandDocKey(rr, "svc1")
+		both := map[string]interface{}{"publicKey": []interface{}{k1, kv1}, "service": []interface{}{s1, sk1}}
+		for i, l := range [][]interface{}{
+			{gen.PAddServices(sk1)}, {gen.PAddKeys(kv1)}, {gen.PAddKeys(k2), gen.PAddServices(gen.RandService(rr, "key2"))}, {gen.PReplace([]interface{}{k1, k2}, []interface{}{sk1, gen.RandService(rr, "key2")})},
+			{gen.PRemoveKeys("svc1")}, {gen.PRemoveServices("key1")},
+		} {
+			c10Compare(c, composer, doc, l, "directed", fmt.Sprint("id-shared-by-key-and-service-", i))
+			c10Compare(c, composer, both, l, "directed", fmt.Sprint("id-shared-by-key-and-service-in-document-", i))
+		}
 		plain := map[string]interface{}{"publicKey": []interface{}{k1}}
 		for i, l := range [][]interface{}{{gen.PAddAka("")}, {gen.PAddAka("", "#me")}, {gen.PAddAka("x"), gen.PAddAka("")}} {
 			c10Compare(c, composer, plain, l, "directed", fmt.Sprint("odd-uri-references-fresh-", i))
